@@ -116,6 +116,27 @@ def classify(c, rows, r, cc):
     return "%s%s-block:%s" % (a1, a2, "same-wfs" if i == j else "wfs-pair") + (":" + "+".join(geo) if geo else "")
 
 
+def physical_mismatch(sc, c, matrix_for=None):
+    """None if the builder's matrix equals the Def's in physical units for the base binding and every PHYS_FAMILIES binding
+    (independent von Karman values, 3e-5 of the largest entry); else (family, row, col, got, expected).
+    matrix_for(hu, l0s) -> matrix lets the caller supply a history (reconfigured object) instead of a fresh build."""
+    fams = [dict(hu=None, l0s=None)] + PHYS_FAMILIES
+    for fam in fams:
+        hu = fam["hu"] if fam["hu"] is not None else HU
+        l0s = fam["l0s"] if fam["l0s"] is not None else L0S
+        if matrix_for is not None:
+            pf = np.asarray(matrix_for(fam["hu"], fam["l0s"]), float)
+        else:
+            pf = np.asarray(build(sc, c, hu=fam["hu"], l0s=fam["l0s"]).make_covariance_matrix(), float)
+        ef, _ = expected(c, lambda l, q: float(d_vk(math.sqrt(q) * hu, R0S[l - 1], l0s[l - 1])), hu=fam["hu"])
+        if pf.shape != ef.shape or not np.all(np.isfinite(pf)) or np.abs(pf - ef).max() > 3e-5 * np.abs(ef).max():
+            if pf.shape != ef.shape:
+                return (fam, 0, 0, None, None)
+            r, cc = np.unravel_index(int(np.argmax(np.where(np.isfinite(pf), np.abs(pf - ef), np.inf))), pf.shape)
+            return (fam, int(r), int(cc), float(pf[r, cc]), float(ef[r, cc]))
+    return None
+
+
 def check_config(sc, c, do_mp=False, do_scaling=False):
     bad = []
     info = {}
@@ -137,11 +158,19 @@ def check_config(sc, c, do_mp=False, do_scaling=False):
     tol = 2e-5 * np.abs(exp).max()
     diff = np.abs(got - exp)
     if diff.max() > tol:
-        r, cc = np.unravel_index(int(np.argmax(diff)), diff.shape)
-        if cc > r:
-            r, cc = cc, r
-        bad.append(("covariance:entry-coefficients:" + classify(c, rows, r, cc),
-                    dict(row=int(r), col=int(cc), got=float(got[r, cc]), expected=float(exp[r, cc]), n_wrong=int((diff > tol).sum()))))
+        # The probe reads the coefficients off by replacing the module-level structure function with tagged values - that the
+        # builder evaluates its stencils through THAT name is the transcribed algorithm (Impl), not the property.  A mismatch is a
+        # verdict only if the matrix is also wrong in physical units (independent von Karman values, five bindings of the lattice);
+        # a builder that gets its structure / correlation values another way is merely not probeable.
+        if physical_mismatch(sc, c) is None:
+            info["drift"] = "coefficient probe not applicable (stencils not evaluated through slopecovariance.structure_function_vk); physical values right"
+            got_mp = None
+        else:
+            r, cc = np.unravel_index(int(np.argmax(diff)), diff.shape)
+            if cc > r:
+                r, cc = cc, r
+            bad.append(("covariance:entry-coefficients:" + classify(c, rows, r, cc),
+                        dict(row=int(r), col=int(cc), got=float(got[r, cc]), expected=float(exp[r, cc]), n_wrong=int((diff > tol).sum()))))
     if not np.array_equal(got, got.T):
         bad.append(("covariance:not-symmetric", dict(max_asym=float(np.abs(got - got.T).max()))))
     if got_mp is not None and not np.array_equal(got_mp, got):
@@ -225,7 +254,13 @@ def check_reconfigured(sc, c_first, c_second):
         sc.structure_function_vk = orig
     exp, rows = expected(c_second, lambda l, q: float(g_rand(l, q)))
     if got.shape != exp.shape or np.abs(got - exp).max() > 2e-5 * np.abs(exp).max():
-        return [("covariance:stale-geometry-after-reconfigure", dict(first_off=c_first["off"], second_off=c_second["off"]))]
+        def reconfigured(hu, l0s):                     # the same history with the real structure function, in physical units
+            cm2 = build(sc, c_first, hu=hu, l0s=l0s)
+            cm2.make_covariance_matrix()
+            cm2.gs_positions = gs_positions_for(c_second) * ((hu / HU) if hu is not None else 1.0)
+            return cm2.make_covariance_matrix()
+        if physical_mismatch(sc, c_second, matrix_for=reconfigured) is not None:
+            return [("covariance:stale-geometry-after-reconfigure", dict(first_off=c_first["off"], second_off=c_second["off"]))]
     return []
 
 
@@ -276,6 +311,9 @@ def run(run):
             bad, info = check_config(sc, c, do_mp=(k % 40 == 0), do_scaling=(k % 25 == 0))
             n += 1
             mineig = min(mineig, info.get("min_eig_rel", 0.0))
+            if info.get("drift") and not run.aux.get("probe_drift_noted"):
+                run.aux["probe_drift_noted"] = True
+                run.drift("coefficient-probe-not-applicable", dict(why=info["drift"]))
             if n in (5, 700):
                 run.sample({kk: (v if kk != "def" else v[:3]) for kk, v in c.items()}, limit=3)
             for key, detail in bad:
